@@ -42,9 +42,26 @@ let parse_def = function
   | "A" :: name :: r -> let (t, r') = parse_tyref r in (DA (nat_of name, t), r')
   | _ -> failwith "def"
 
+(* attrs <n> (place returns k (hexdirective m hexarg{m}){k}){n} -> the attribute diagnostics of the model, sorted, or "ok" *)
+let place_of = function
+  | "Module" -> PlModule | "Struct" -> PlStruct | "Field" -> PlField | "Interface" -> PlInterface | "Operation" -> PlOperation | "Parameter" -> PlParameter
+  | "Enum" -> PlEnum | "Enumerator" -> PlEnumerator | "CustomType" -> PlCustomType | "TypeAlias" -> PlTypeAlias | "TypeRef" -> PlTypeRef | "SliceFile" -> PlSliceFile
+  | x -> failwith ("place " ^ x)
+let acode_name = function E023 -> "E023" | E024 -> "E024" | E026 -> "E026" | E027 -> "E027" | E028 -> "E028"
+let attrs_handle ts =
+  let toks = ref ts in
+  let next () = match !toks with t :: r -> toks := r; t | [] -> failwith "attrs: out of tokens" in
+  let rec times n f = if n = 0 then [] else let x = f () in x :: times (n - 1) f in
+  let many f = let n = int_of_string (next ()) in times n f in
+  let attr () = let d = bytes_of_hex (next ()) in let args = many (fun () -> bytes_of_hex (next ())) in { ad_dir = d; ad_args = args } in
+  let element () = let p = place_of (next ()) in let r = next () = "1" in let l = many attr in { el_place = p; el_returns = r; el_attrs = l } in
+  let es = many element in
+  match List.sort compare (List.map acode_name (check_attributes es)) with [] -> "ok" | l -> String.concat " " l
+
 let handle = function
   | "val" :: n :: r ->
     let (p, _) = parse_n parse_def (int_of_string n) r [] in
     let codes = List.sort compare (List.map int_of_nat (check p)) in
     if codes = [] then "ok" else String.concat " " (List.map (Printf.sprintf "E%03d") codes)
+  | "attrs" :: ts -> attrs_handle ts
   | _ -> "?"
